@@ -26,7 +26,7 @@ Act == LET n == Ev.name IN
 TStep == /\ l <= Len(Rec) /\ l' = l + 1
          /\ IF Ev.name = "reset"
             THEN /\ hd' = None /\ pools' = [h \in Heights |-> NoPool] /\ vpk' = {} /\ vp' = [x \in Hashes |-> <<>>]
-                 /\ tasks' = {} /\ initTask' = TRUE /\ arrived' = {} /\ expired' = {} /\ quiet' = FALSE /\ ev' = <<>>
+                 /\ tasks' = {} /\ initTask' = TRUE /\ arrived' = {h \in Heights : h <= 0} /\ expired' = {} /\ quiet' = FALSE /\ ev' = <<>>
                  /\ owe' = {} /\ blk' = {} /\ why' = ""
                  /\ op' = [a |-> "init", p |-> 0, x |-> 0, h |-> 0] /\ res' = <<"none">>
             ELSE Act /\ Match
